@@ -234,7 +234,7 @@ def build_driver(name):
     with open(os.path.join(wd, "zio.ml"), "w") as f:
         f.write("module ZA = Z\nopen %s_model\n" % name.capitalize() + open(os.path.join(od, "zio.ml.in")).read())
     files = [name + "_model.mli", name + "_model.ml", "zio.ml", name + "_drv.ml"]
-    rc, out = sh(["ocamlfind", "ocamlopt", "-w", "-a", "-package", "zarith", "-linkpkg"] +
+    rc, out = sh(["ocamlfind", "ocamlopt", "-w", "-a", "-package", "zarith,str", "-linkpkg"] +
                  files + ["-o", exe], cwd=wd, timeout=900)
     shutil.rmtree(wd, ignore_errors=True)
     if rc != 0:
